@@ -30,6 +30,7 @@ import sys
 import time
 from http import client
 from typing import List, Mapping, Union, cast
+from urllib.parse import quote
 
 from radicale import config, pathutils, types
 from radicale.log import logger
@@ -157,6 +158,8 @@ def read_request_body(configuration: "config.Configuration",
 
 
 def redirect(location: str, status: int = client.FOUND) -> types.WSGIResponse:
+    """Redirect to the URL path ``location`` (percent-encoded like all hrefs)."""
+    location = quote(location)
     return (status,
             {"Location": location, "Content-Type": "text/plain"},
             "Redirected to %s" % location)
